@@ -20,6 +20,10 @@ def load_checks():
 
 
 CHECKS = load_checks()
+_enabled = os.path.join(ROOT, "tools", "props", "enabled.txt")
+if os.path.exists(_enabled):
+    _ids = set(open(_enabled).read().split())
+    CHECKS = {k: v for k, v in CHECKS.items() if k in _ids}
 
 NOT_YET = {}
 
